@@ -247,6 +247,42 @@ def run(ctx):
     ctx.cov['evaluations'] += e
     ctx.cov['distinct_nontrivial'] += e + n
     ctx.stage('fs-edges', edges=e)
+    # write_to_tempfile: exactly the content, for contents around the sizes at which an implementation might split the write
+    w = 0
+    wdir = os.path.join(root, 'wtt')
+    for size in (0, 1, 4095, 4096, 4097, 65535, 65536, 65537, 131072, 131073, (1 << 20) + 1) + (() if quick else (3 * (1 << 20) + 5,)):
+        content = rnd.randbytes(size)
+        try:
+            newp = fileutils.write_to_tempfile(content, path=wdir)
+            with open(newp, 'rb') as fh:
+                back = fh.read()
+            os.unlink(newp)
+            got = 'exact' if back == content else 'holds %d of %d bytes%s' % (len(back), size, '' if content.startswith(back) else ', not a prefix')
+        except Exception as ex:
+            got = 'EXC:' + type(ex).__name__
+        w += 1
+        if got != 'exact':
+            ctx.violation({'kind': 'write_to_tempfile-content', 'size_class': 'le64k' if size <= 65536 else 'gt64k'},
+                          {'size': size, 'observed': got}, 'write_to_tempfile(%d bytes): the file %s' % (size, got))
+    # the checksum is a function of the content: same path, same size, same mtime, other content
+    cpath = os.path.join(ctx.work, 'same_meta.bin')
+    for size in (1, 4096, 70000):
+        a, b = rnd.randbytes(size), rnd.randbytes(size)
+        with open(cpath, 'wb') as fh:
+            fh.write(a)
+        st = os.stat(cpath)
+        d1 = fileutils.compute_file_checksum(cpath)
+        with open(cpath, 'wb') as fh:
+            fh.write(b)
+        os.utime(cpath, ns=(st.st_atime_ns, st.st_mtime_ns))
+        d2 = fileutils.compute_file_checksum(cpath)
+        w += 1
+        if d1 != hashlib.sha256(a).hexdigest() or d2 != hashlib.sha256(b).hexdigest():
+            ctx.violation({'kind': 'checksum-follows-metadata'}, {'size': size, 'first_ok': d1 == hashlib.sha256(a).hexdigest()},
+                          'compute_file_checksum after the file was rewritten with other content of the same size and its '
+                          'modification time restored: digest of the %s content' % ('old' if d2 == d1 else 'wrong'))
+    ctx.cov['evaluations'] += w
+    ctx.stage('content-exactness', cases=w)
     # errno filter: every errno injected into the underlying call
     z = 0
     table = {(r['c']['fn'], r['c']['e'], r['c']['isdir']): r['swallowed'] for r in tables['errno']}
